@@ -185,10 +185,10 @@ impl IsaStringNode {
 impl Aml for IsaStringNode {
     fn to_aml_bytes(&self, sink: &mut dyn AmlSink) {
         // ISA string length (including NULL terminator)
-        let strlen = self.string.len() as u16 + 1;
+        let strlen = u16::try_from(self.string.len() + 1).unwrap();
         let padding_reqd = strlen % 2 == 1;
         sink.word(RhctNodeType::IsaString as u16);
-        sink.word(self.len() as u16);
+        sink.word(u16::try_from(self.len()).unwrap());
         sink.word(Self::REVISION);
         sink.word(strlen);
         sink.vec(self.string.as_bytes());
@@ -242,9 +242,9 @@ impl Aml for HartInfoNode {
     fn to_aml_bytes(&self, sink: &mut dyn AmlSink) {
         let ty = RhctNodeType::HartInfo as u16;
         sink.word(ty);
-        sink.word(self.len() as u16);
+        sink.word(u16::try_from(self.len()).unwrap());
         sink.word(Self::REVISION);
-        sink.word(self.handles.len() as u16);
+        sink.word(u16::try_from(self.handles.len()).unwrap());
         sink.dword(self.processor_uid);
         for handle in &self.handles {
             sink.dword(*handle);
